@@ -660,11 +660,31 @@ fn step(st: &mut St, ws: &[&str]) -> String {
     }
 }
 
+/// `step` with the panic message of a failing request appended to a log under .cache (diagnosis only;
+/// the protocol answer stays `PANIC`)
+fn step_logged(st: &mut St, ws: &[&str]) -> String {
+    match std::panic::catch_unwind(std::panic::AssertUnwindSafe(|| step(st, ws))) {
+        Ok(s) => s,
+        Err(e) => {
+            let msg = e
+                .downcast_ref::<String>()
+                .cloned()
+                .or_else(|| e.downcast_ref::<&str>().map(|s| s.to_string()))
+                .unwrap_or_default();
+            if let Ok(mut f) = std::fs::OpenOptions::new().create(true).append(true).open("/verif/.cache/run/c09-panics.log") {
+                use std::io::Write;
+                let _ = writeln!(f, "{} :: {}", ws.join(" ").chars().take(120).collect::<String>(), msg.chars().take(300).collect::<String>());
+            }
+            "PANIC".into()
+        }
+    }
+}
+
 fn main() {
     let a = args();
     match a.mode.as_str() {
         "gen" => gen(&a),
-        "exec" => exec_loop(St::default, step),
+        "exec" => exec_loop(St::default, step_logged),
         _ => panic!("mode"),
     }
 }
